@@ -62,6 +62,7 @@ func isSyncType(t types.Type) bool {
 
 func runC15(c *Ctx) {
 	r := c.R
+	defer ruleOwnership(c, "R15.4")
 	r.NotDecided = append(r.NotDecided,
 		"races inside user-supplied transports / dialect values",
 		"the absence of races as the race detector would observe it: this is a lockset / confinement discipline check, not a happens-before proof; the discipline classes are the trusted artefact")
@@ -423,4 +424,62 @@ func ruleRawPassthrough(c *Ctx, rule string) {
 		}
 	}
 	r.Check(bad == "", rule, "frame.Writer.Write raw passthrough", c.Pos(w.Pos()), "a frame carrying a raw message is only read by the writer", bad)
+}
+
+// ruleOwnership (R15.4): objects cross goroutines by ownership transfer, and shared objects are not mutated.
+// (a) runReader: the event handed to the application (pushEvent) is a fresh object of the current iteration and is the
+// last thing the reader does with it — the stream-request hook, which reads evt.Frame, runs before the push (the
+// application may edit or forward the frame as soon as it has it). (b) the functions that run on several goroutines at
+// once (onEventFrame: one reader goroutine per channel; the heartbeat ticker) mutate through reflection only objects
+// they have allocated themselves in the same invocation (reflect.New), never an object reachable from the receiver.
+func ruleOwnership(c *Ctx, rule string) {
+	r := c.R
+	r.Rule(rule, "ownership: (a) in Channel.runReader every pushed event is allocated in the same loop iteration and the stream-request hook runs before the event is handed to the application, never after; "+
+		"(b) onEventFrame and the heartbeat ticker set fields through reflection only on objects created by reflect.New in the same invocation (a message object kept in the module and refilled per request would be written by several reader goroutines at once)", 4)
+	if rd := c.Fn("root", "Channel.runReader"); rd != nil {
+		r.Functions[fnQual(rd)] = true
+		checkReaderLoop(c, rd, rule)
+	}
+	for _, name := range []string{"nodeStreamRequest.onEventFrame", "nodeHeartbeat.run"} {
+		fn := c.Fn("root", name)
+		if fn == nil {
+			continue
+		}
+		r.Functions[fnQual(fn)] = true
+		bad := ""
+		n := 0
+		for _, f := range append([]*ssa.Function{fn}, fn.AnonFuncs...) {
+			for _, in := range allInstrs(f) {
+				call, ok := in.(*ssa.Call)
+				if !ok {
+					continue
+				}
+				cn := calleeName(&call.Call)
+				if !strings.HasPrefix(cn, "(reflect.Value).Set") || len(call.Call.Args) == 0 {
+					continue
+				}
+				n++
+				// root of the receiver chain
+				v := call.Call.Args[0]
+				for d := 0; d < 12; d++ {
+					cc, isCall := v.(*ssa.Call)
+					if !isCall {
+						break
+					}
+					switch calleeName(&cc.Call) {
+					case "(reflect.Value).FieldByName", "(reflect.Value).Elem", "(reflect.Value).Field", "(reflect.Value).Index":
+						v = cc.Call.Args[0]
+						continue
+					}
+					break
+				}
+				rootCall, isCall := v.(*ssa.Call)
+				if !isCall || calleeName(&rootCall.Call) != "reflect.New" {
+					bad = fmt.Sprintf("%s sets a field through reflection on %s, which is not an object created by reflect.New in this invocation (%s): an object shared by the module is written by every goroutine that runs %s",
+						cn, shortErr(v), c.Pos(call.Pos()), name)
+				}
+			}
+		}
+		r.Check(bad == "" && n > 0, rule, name+" reflective writes", c.Pos(fn.Pos()), fmt.Sprintf("%d reflective field writes, all on objects created by reflect.New in the same invocation", n), orStr(bad, "no reflective field write found"))
+	}
 }
